@@ -316,6 +316,33 @@ def run(ctx):
                     pub = pub or prog.group_reaches_call(prog.bodies[m].root, re.compile(r'commit_changes$|InMemoryTableInner::(append|delete)$|commit_inner$'), 6)
             ctx.ob(R6, f'drop·{i["self_adt"]}', not pub, f'Drop for {i["self_adt"]} must not publish', [i['loc']])
 
+    # R7 ----------------------------------------------------------------------------------------------
+    R7 = 'C15-R7'
+    ctx.rule(R7, 'the items of an operator stream are Results: a combinator that consumes such a stream without ever showing its items to the '
+                 'caller (StreamExt::count / skip / last / nth / for_each over the raw items) drops an Err item as if it were a chunk; a '
+                 'stream of Result<_, E> may only be drained item by item (poll_next / next with the item checked, R1) or through the '
+                 'Try* combinators')
+    DISCARD = re.compile(r'futures(::stream)?::StreamExt::(count|skip|skip_while|last|nth|for_each|for_each_concurrent|fold|any|all)$')
+    n_comb = 0
+    for b in prog.bodies.values():
+        if not STATEMENT_PATH.search(b.name) or b.rec.get('derived'):
+            continue
+        for c in b.calls:
+            if re.search(r'futures(::stream)?::(StreamExt|TryStreamExt)::', c.fn or ''):
+                n_comb += 1
+            if not DISCARD.search(c.fn or ''):
+                continue
+            g = ' '.join(c.t.get('gargs', []))
+            et = [e for e in ERR_TYPES if re.search(r'Item = std::result::Result<.*, ' + re.escape(e) + '>', g)]
+            if et:
+                ctx.functions_analysed.add(b.name)
+                ctx.ob(R7, f'{b.root}·{c.fn.rsplit("::", 1)[-1]}·drops-stream-items', False,
+                       f'{b.name}: {c.fn} over a stream of Result<_, {et[0]}> at block {c.bb}', [site(b, c.bb)],
+                       what=f'{b.root} drains a stream of Result items with `{c.fn.rsplit("::", 1)[-1]}`: an Err item of a failed operator is '
+                            'counted like a chunk and the statement reports success')
+    ctx.ob(R7, 'stream-combinators·none-discards-results', True, f'{n_comb} Stream combinator calls on the statement path examined', nontrivial=False)
+    ctx.floor(R7, n_comb, 5, 'StreamExt / TryStreamExt calls on the statement path')
+
 
 def short(n):
     return re.sub(r'<[^<>]*>', '', n or '?')
